@@ -7,6 +7,7 @@ import MellonProofs.KernelLemmas
 import MellonProofs.MatrixBridge
 import MellonModel.Inference
 import MellonProofs.InferenceLemmas
+import Mathlib.Data.List.FinRange
 import Mathlib.LinearAlgebra.Matrix.Orthogonal
 import Mathlib.Data.Matrix.Mul
 
@@ -273,6 +274,30 @@ theorem mu_scale {n : Nat} (hn : 0 < n) (a d : ℝ) (ha : 0 < a) (r r' : Vector 
     rw [hr' i hi', mle_scale a _ d ha (hr i hi')]
   rw [hv, quantile01_map_sub _ (by unfold mleVec; rw [toList_vecOfFn]; simpa using hn)]
   exact sub_right_comm _ _ _
+
+private theorem range_map_eq_ofFn {n : Nat} (F : Nat → ℝ) :
+    (List.range n).map F = List.ofFn (fun i : Fin n => F i) := by
+  rw [List.ofFn_eq_map, ← List.map_coe_finRange_eq_range, List.map_map]
+  rfl
+
+/-- **The auto-selected prior mean follows no order of the cells**: reordering the cells leaves
+    `compute_mu` unchanged (the sorted MLE log-densities are the same list). -/
+theorem mu_perm {n : Nat} (σ : Equiv.Perm (Fin n)) (d : ℝ) (r r' : Vector ℝ n)
+    (hr' : ∀ i : Fin n, r'.nth i = r.nth (σ i)) :
+    computeMu r' (.scalar d) = computeMu r (.scalar d) := by
+  have hp : ((mleVec r' (.scalar d)).toList).Perm ((mleVec r (.scalar d)).toList) := by
+    unfold mleVec
+    rw [toList_vecOfFn, toList_vecOfFn, range_map_eq_ofFn, range_map_eq_ofFn]
+    simp only [DimArg.get, hr']
+    exact Equiv.Perm.ofFn_comp_perm σ (fun i : Fin n => mle (r.nth i) d)
+  have hs : sortAsc (mleVec r' (.scalar d)).toList = sortAsc (mleVec r (.scalar d)).toList := by
+    apply List.Perm.eq_of_pairwise (le := (· ≤ ·))
+    · intro x y _ _ h1 h2; exact le_antisymm h1 h2
+    · exact sortAsc_sorted _
+    · exact sortAsc_sorted _
+    · exact (sortAsc_perm _).trans (hp.trans (sortAsc_perm _).symm)
+  unfold computeMu
+  rw [quantile01_eq, quantile01_eq, hs, hp.length_eq]
 
 /-- Non-vacuity: distances `[1, 2]` scaled by `a = 2` satisfy the hypotheses of `ls_scale` / `mu_scale`. -/
 example : (∀ i, i < 2 → 0 < (#v[(1:ℝ), 2] : Vector ℝ 2).nth i) := by
